@@ -119,6 +119,20 @@ SPHERE_VOL_PARS = [["vol", "Ang^3", 33510.0, [0, INF], "", "sphere volume (plain
 SPHERE_VOL_TR = "radius = cbrt(vol/M_4PI_3)"
 
 
+# a base parameter whose name is a single character (as in core_multi_shell, guinier_porod, teubner_strey, ...),
+# assigned on a line indented with a tab
+CUSTOM_LETTER = dict(
+    name="verif_letter", title="single-letter decay", description="test base for reparameterisation",
+    category="shape-independent",
+    parameters=[["a", "Ang", 20.0, [0, INF], "volume", "size"],
+                ["k", "", 1.0, [-INF, INF], "", "amplitude"]],
+    Iq="return k*exp(-q*a);",
+    form_volume="return a*a*a;",
+)
+LETTER_PARS = [["half", "Ang", 10.0, [0, INF], "volume", "half size"]]
+LETTER_TR = "\ta = 2.0*half"
+
+
 def custom_base(spec):
     """ModelInfo of a base model defined here (module-like object through the library's own make_model_info)."""
     import types
@@ -141,6 +155,7 @@ QUICK_PROGRAMS = [
     ("lamellar_half", "lamellar", LAMELLAR_PARS, LAMELLAR_TR, None, ["Iq"]),
     ("custom_valid_with_product", CUSTOM_CAPPED, CAPPED_PARS, CAPPED_TR, None, ["Iq"]),
     ("sphere_volume_as_plain_parameter", "sphere", SPHERE_VOL_PARS, SPHERE_VOL_TR, None, ["Iq"]),
+    ("single_letter_base_parameter", CUSTOM_LETTER, LETTER_PARS, LETTER_TR, None, ["Iq"]),
 ]
 
 THOROUGH_PROGRAMS = QUICK_PROGRAMS + [
